@@ -99,7 +99,7 @@ func toInt(v any) (int64, bool) {
 }
 
 // SuccessData is the deterministic function every scripted step applies to its input.
-func SuccessData(src string, in map[any]any) map[string]any {
+func SuccessData(src string, in map[string]any) map[string]any {
 	out := map[string]any{"tag": fmt.Sprintf("%s(%v)", src, in["tag"])}
 	if n, ok := toInt(in["n"]); ok {
 		out["n"] = n + 1
@@ -177,7 +177,7 @@ func serve(p *conn, sc *Script, ds DeployScript, in *io.PipeReader, out *io.Pipe
 			go func() {
 				defer wg.Done()
 				defer OpenExecs.Add(-1)
-				execute(p, sc, runID, ws, send, cancelCh, closed, in, out)
+				execute(p, sc, variant, runID, ws, send, cancelCh, closed, in, out)
 			}()
 		case atp.MessageTypeSignal:
 			var sm atp.SignalMessage
@@ -196,10 +196,28 @@ func serve(p *conn, sc *Script, ds DeployScript, in *io.PipeReader, out *io.Pipe
 	}
 }
 
-func execute(p *conn, sc *Script, runID string, ws atp.WorkStartMessage, send func(any) error,
+func execute(p *conn, sc *Script, variant string, runID string, ws atp.WorkStartMessage, send func(any) error,
 	cancelCh chan struct{}, closed chan struct{}, in *io.PipeReader, out *io.PipeWriter) {
-	input, _ := ws.Config.(map[any]any)
-	Log("exec-start", p.src, p.id, runID, map[string]any{"step": ws.StepID, "input": ws.Config})
+	// Like a plugin built with the SDK, validate and normalise the received input with the step's own input schema.
+	// "raw" is what crossed the boundary; "input" is its normalised form (typed values, defaults filled in).
+	input := map[string]any{}
+	inputErr := ""
+	if st, ok := PluginSchema(variant).Steps()[ws.StepID]; !ok {
+		inputErr = "no such step: " + ws.StepID
+	} else if unser, err := st.Input().Unserialize(ws.Config); err != nil {
+		inputErr = err.Error()
+	} else if ser, err := st.Input().Serialize(unser); err != nil {
+		inputErr = "cannot serialize: " + err.Error()
+	} else if m, ok := ser.(map[string]any); ok {
+		input = m
+	}
+	if inputErr != "" {
+		Log("exec-start", p.src, p.id, runID, map[string]any{"step": ws.StepID, "raw": ws.Config, "input_error": inputErr})
+		Log("exec-end", p.src, p.id, runID, map[string]any{"crash": "invalid input"})
+		_ = send(atp.RuntimeMessage{MessageID: atp.MessageTypeError, RunID: runID, MessageData: atp.ErrorMessage{Error: "invalid input: " + inputErr, StepFatal: true}})
+		return
+	}
+	Log("exec-start", p.src, p.id, runID, map[string]any{"step": ws.StepID, "input": input, "raw": ws.Config})
 	es := sc.Exec
 	if tag, ok := input["tag"].(string); ok {
 		if o, ok := sc.ExecByTag[tag]; ok {
